@@ -138,7 +138,22 @@ pub fn run_arch(sc: &Value, id: usize, out: Out) {
             splits.push(r.unwrap_or(json!({"k": k, "res": "panic"})));
         }
     }
+    // every sub-range (s, e) with 0 <= s, e <= n + 1: result, input / output shape and number of operators
+    let mut ranges: Vec<Value> = Vec::new();
+    for s0 in 0..=(n + 1) {
+        for e0 in 0..=(n + 1) {
+            let r = guarded(|| arch.extract_range(s0, e0).map(|a| (shape_dim(&a.input_shape), shape_dim(&a.current_shape), a.operators.len(),
+                                                                a.operators.iter().map(|(_, sh)| shape_dim(sh)).collect::<Vec<_>>())));
+            ranges.push(match r {
+                Ok(Ok((i, o, k, shs))) => json!({"s": s0, "e": e0, "res": "ok", "in": i, "out": o, "n": k, "shapes": shs}),
+                Ok(Err(_)) => json!({"s": s0, "e": e0, "res": "err", "in": 0, "out": 0, "n": 0, "shapes": []}),
+                Err(_) => json!({"s": s0, "e": e0, "res": "panic", "in": 0, "out": 0, "n": 0, "shapes": []}),
+            });
+        }
+    }
+    let final_shapes: Vec<usize> = arch.operators.iter().map(|(_, sh)| shape_dim(sh)).collect();
     out(json!({"fam": "arch", "sc": id, "first": true, "q": q as i64, "dim": indim, "calls": calls, "ops": ops_json, "whole": whole_j, "splits": splits,
+               "ranges": ranges, "op_shapes": final_shapes,
                "invalid_ranges": [guarded(|| arch.extract_range(0, n + 1).is_err()).unwrap_or(false), guarded(|| arch.extract_range(n, n).is_err()).unwrap_or(false)]}));
 }
 
